@@ -57,6 +57,10 @@ class Box:
         0 = copy of stdin (plan_stdin_*), 1 = combined file (plan_auto_*), 2 = private output directory (plan_output_*)"""
         import re
         tf = os.path.join(self.root, "strace.%d.txt" % len(os.listdir(self.root)))
+        if shutil.which("strace") is None:
+            r = self.run(args, stdin, timeout)
+            r["fsops"] = None
+            return r
         cmd = ["strace", "-f", "-o", tf, "-e", "trace=openat,open,creat,mkdir,mkdirat,rmdir,unlink,unlinkat,rename,renameat,renameat2",
                common.PY, "-c", "import sys; from scriptplan.cli.plan import main; sys.exit(main())"] + list(args)
         p = subprocess.Popen(cmd, cwd=self.cwd, env=self.env(), stdin=subprocess.PIPE if stdin is not None else subprocess.DEVNULL,
@@ -71,6 +75,8 @@ class Box:
         kinds = (("plan_stdin_", 0), ("plan_auto_", 1), ("plan_output_", 2))
         try:
             lines = open(tf, errors="replace").read().split("\n")
+            if not any("execve" in x or "openat" in x for x in lines):
+                lines = None            # strace could not attach (ptrace not permitted): no trace to compare
         except OSError:
             lines = None
         if lines is not None:
